@@ -17,22 +17,37 @@ DEFAULTS = {
     "MAINT_MPMC": "", "MAINT_SPIN": "", "IDLE": "         skip;", "MEMCASES": "",
     "FIBERFIELDS": "", "MGRFIELDS": "", "MODELED": "", "POST": "",
     "SKIPKINDS": "", "TRACEACTIONS": "", "TRACENEXT": "", "FNPROC": "",
-    "GROUPOF": "", "GROUPVAL": "", "FAITHFUL": "", "UNFAITHFUL": "", "MONFIELDS": "", "MONCASES": "",
+    "GROUPOF": "", "GROUPVAL": "", "FAITHFUL": "", "UNFAITHFUL": "", "MONFIELDS": "", "MONCASES": "", "PROCESSES": "", "MCENV": "",
 }
 
 
 def read_fragment(path):
+    """A fragment may start with lines `#! INCLUDE <Other>`: the sections of
+    spec/mod/<Other>.mod are merged in first and the fragment's own sections are
+    APPENDED to them (e.g. Channel.mod builds on the Signal procedures)."""
     sec = dict(DEFAULTS)
     cur = None
     if not os.path.exists(path):
         return sec
+    filled = set()  # sections that already have content (from an include or from this fragment)
     for line in open(path):
+        m = re.match(r"^#!\s*INCLUDE\s+(\w+)\s*$", line)
+        if m:
+            inc = read_fragment(os.path.join(os.path.dirname(path), m.group(1) + ".mod"))
+            for k, v in inc.items():
+                if v != DEFAULTS[k]:
+                    sec[k] = v if k not in filled else sec[k] + v
+                    filled.add(k)
+            cur = None
+            continue
         m = re.match(r"^#!\s*(\w+)\s*$", line)
         if m:
             cur = m.group(1)
             if cur not in sec:
                 raise SystemExit(f"{path}: unknown section {cur}")
-            sec[cur] = ""
+            if cur not in filled:
+                sec[cur] = ""
+                filled.add(cur)
             continue
         if cur:
             sec[cur] += line
@@ -157,7 +172,8 @@ def gen_mc(scen, outdir=GEN):
     scripts = scen["scripts"]
     user = [f for f in scripts if f != "thr0"]
     objs = scen.get("objects", {})
-    mutexes = objs.get("mutex", [])
+    # "model_mutexes": mutexes that live inside other objects (created and registered by a driver extension)
+    mutexes = objs.get("mutex", []) + scen.get("model_mutexes", [])
     def names(kind):
         return [o[0] if isinstance(o, list) else o for o in objs.get(kind, [])]
     mpscqs = list(mutexes) + names("mpscq") + [b + "_" + str(i) for b in names("barrier") for i in (0, 1)] + names("cond") + scen.get("mpscqs", [])
